@@ -483,6 +483,37 @@ def selection_clause(model, rep, funcs):
            clause="5 slots", stmt="corner_safe selection")
 
 
+def diagonal_clause(model, rep, funcs):
+    """corner_safe: the crop window is sized by the diagonal of the *whole* box on every tomogram axis (a rotated box can put its longest extent on any axis)."""
+    from ..match import Matcher
+    f = funcs.get(U_ + "prepare_affine_cornersafe")
+    if f is None:
+        return
+    M = Matcher(f)
+    pats = ["np.sqrt(np.sum(np.asarray(output_shape, ...) ** 2))", "np.sqrt(np.sum(np.array(output_shape, ...) ** 2))", "np.linalg.norm(output_shape)",
+            "np.linalg.norm(np.asarray(output_shape, ...))", "np.sqrt(sum(($s ** 2 for $s in output_shape)))", "math.sqrt(sum(($s ** 2 for $s in output_shape)))",
+            "np.sqrt(np.sum(np.square(output_shape)))", "np.hypot(*output_shape)"]
+    hits = []
+    for p in pats:
+        hits += M.find(p)
+    rep.instance("A.diagonal", f.loc())
+    ok = bool(hits)
+    det = ""
+    if ok:
+        # the diagonal is what sizes the window: it flows into x0 / x1 of make_slice_and_pad
+        calls = [c for c in calls_in(f) if (dotted(c.func) or "").endswith("make_slice_and_pad")]
+        ok = bool(calls)
+        for c in calls:
+            exs = [norm_src(M.expr(a)) for a in c.args[:2]]
+            if not all(any(norm_src(M.expr(h if isinstance(h, ast.AST) else h[0])) in e for h in hits) or "sqrt" in e or "norm" in e or "hypot" in e for e in exs):
+                ok = False
+                det = f"window bounds `{exs[0][:60]}` / `{exs[1][:60]}` are not computed from the box diagonal"
+    else:
+        det = "no expression in the function is the Euclidean norm of the whole output_shape: a per-axis length under-sizes the window of non-cubic boxes under rotation"
+    rep.ob("A", f.anchor, "the corner-safe window is sized by the diagonal sqrt(sum(output_shape**2)) of the whole box on every axis", ok, det, node=f.node, fn=f,
+           clause="1 window", stmt="def prepare_affine_cornersafe diagonal")
+
+
 def check(model, rep, tier):
     rep.decided += ["C02.1 window algebra of prepare_affine/prepare_affine_cornersafe and padding identity of make_slice_and_pad",
                     "C02.2 raise-guards are the exact complement of 'window overlaps the axis' (no empty slice, no spurious error)",
@@ -499,3 +530,8 @@ def check(model, rep, tier):
     crop_call_clause(model, rep, funcs)
     catch_clause(model, rep, funcs)
     selection_clause(model, rep, funcs)
+    diagonal_clause(model, rep, funcs)
+    from .generic import rebuild_ctor_obligations, functions_in
+    rebuild_ctor_obligations(model, rep, functions_in(model, ["acryo/loader/_batch.py", "acryo/loader/_loader.py", "acryo/loader/_base.py", "acryo/loader/_group.py",
+                                                              "acryo/loader/_mock.py"]), "4 pairing")
+    rep.floor("CTOR", 2, "(LoaderAccessor rebuilds per-tomogram loaders from the batch loader)")
